@@ -69,7 +69,7 @@ func TestC01(t *testing.T) {
 			var cells [1024]int64
 			var totalSteps, unspecV, unspecA, order int64
 			maxSteps := rig.Pick(16, 64)
-			r.Rapid("lockstep", rig.Pick(30000, 300000), func(t *rapid.T) {
+			r.Rapid("lockstep", rig.Pick(60000, 400000), func(t *rapid.T) {
 				d := rig.RapidDrawer{T: t}
 				syn := rig.NewSynth(d, nil)
 				// the first opcode is drawn before the state so that the state can suit it
